@@ -29,6 +29,10 @@ func (tree *Tree) Export(order TraverseOrderType) *Exporter {
 		defer close(exporter.out)
 		defer close(exporter.errCh)
 
+		if tree.root == nil {
+			// an empty tree exports no nodes
+			return
+		}
 		if traverseOrder == PostOrder {
 			exporter.postOrderNext(tree.root)
 		} else if traverseOrder == PreOrder {
